@@ -344,8 +344,14 @@ public:
   /// \brief Begin an outbound connection (async); result via onConnect.
   ConnectResult connect(const std::string &host, std::uint16_t port, TlsMode tls) override
   {
+    return connectNamed(host, port, tls, std::string());
+  }
+
+  ConnectResult connectNamed(const std::string &host, std::uint16_t port, TlsMode tls,
+                             const std::string &serverName) override
+  {
     SessionId sid = _nextSessionId++;
-    ConnectReq cr{sid, host, port, tls};
+    ConnectReq cr{sid, host, port, tls, serverName};
     // Surface the closed-queue reject (DD-5): if the transport is tearing down,
     // enqueue() returns false and the connect command is dropped — returning
     // ok(sid) here would promise a connection that will never complete or fire
@@ -722,6 +728,7 @@ private:
     std::string host;
     std::uint16_t port{};
     TlsMode tls{TlsMode::None};
+    std::string serverName; // name the peer must prove (host was resolved by the caller)
   };
 
   struct SendReq
@@ -1685,15 +1692,19 @@ private:
       }
       ::SSL_set_fd(s->ssl, cfd);
       ::SSL_set_connect_state(s->ssl);
-      if (!isIPv4 && !isIPv6)
+      // The name the peer must prove: given by a caller that resolved the host
+      // itself, else the host name we were asked to connect to.
+      const std::string &peerName =
+        !cr.serverName.empty() ? cr.serverName : ((!isIPv4 && !isIPv6) ? cr.host : cr.serverName);
+      if (!peerName.empty())
       {
         // Connection made to a host name: announce it (SNI) and, when the peer
         // is verified, require the certificate to be issued for that name -
         // chain validation alone accepts any certificate of the trusted CA.
-        ::SSL_set_tlsext_host_name(s->ssl, cr.host.c_str());
+        ::SSL_set_tlsext_host_name(s->ssl, peerName.c_str());
         if (_config.clientTls.verifyPeer)
         {
-          ::SSL_set1_host(s->ssl, cr.host.c_str());
+          ::SSL_set1_host(s->ssl, peerName.c_str());
         }
       }
       s->tlsState = TlsState::Handshake;
